@@ -102,8 +102,10 @@ fn getcmd(key: &[u8], opq: u32) -> Cmd {
     Cmd { op: "get".into(), q: false, gk: false, key: key.to_vec(), val: vec![], flags: 0, ttl: 0, cas: CasSpec::Lit(0), opaque: opq, delta: 0, initial: 0 }
 }
 
-/// Real-time expiry probe: set ttl=3, read after 1.0 s (must hit) and after 4.2 s (must miss).  The server's
-/// clock is not known; the trace carries the bounds that follow from real elapsed time (see DESIGN C20).
+/// Real-time expiry probe: set ttl=6, read after 1.0 s and after 4.0 s (must hit) and after 7.5 s (must miss).  The
+/// server's clock is not known; the trace carries the bounds that follow from real elapsed time: in e seconds a 1 Hz
+/// clock ticks at most floor(e) + 1 times and at least floor(e) times (see DESIGN C20).  A clock that runs fast
+/// (two tick loops on one timer) fails the second read, one that runs slow or not at all fails the third.
 pub fn ttl_probe(port: u16, item_limit: u32, out: &mut dyn Write, hist_no: usize) -> usize {
     let mut c = match Client::connect(port) {
         Ok(c) => c,
@@ -114,27 +116,22 @@ pub fn ttl_probe(port: u16, item_limit: u32, out: &mut dyn Write, hist_no: usize
         "cfg": {"policy": "none", "L": 0, "limit": item_limit}, "keys": [hex(&key)]})).unwrap();
     let _ = one(&mut c, &Frame::consistent(0x08, &[], &[], &[], 1, 0));
     writeln!(out, "{}", json!({"e": "tick", "to": 100})).unwrap();
-    let set = Cmd { op: "set".into(), q: false, gk: false, key: key.clone(), val: b"alive".to_vec(), flags: 5, ttl: 3, cas: CasSpec::Lit(0), opaque: 21, delta: 0, initial: 0 };
+    let set = Cmd { op: "set".into(), q: false, gk: false, key: key.clone(), val: b"alive".to_vec(), flags: 5, ttl: 6, cas: CasSpec::Lit(0), opaque: 21, delta: 0, initial: 0 };
     let fr = frame_of(&set, 0);
     let t0 = Instant::now();
     let rs = one(&mut c, &fr);
     writeln!(out, "{}", finish_event(cmd_event(&set, 0, &fr), rs)).unwrap();
-    // at most two ticks of the 1 Hz clock can fall into 1.0 s
-    std::thread::sleep(Duration::from_millis(1000).saturating_sub(t0.elapsed()));
-    writeln!(out, "{}", json!({"e": "tick", "to": 102})).unwrap();
-    let g = getcmd(&key, 22);
-    let fr = frame_of(&g, 0);
-    let rs = one(&mut c, &fr);
-    writeln!(out, "{}", finish_event(cmd_event(&g, 0, &fr), rs)).unwrap();
-    // at least four ticks fall into 4.2 s
-    std::thread::sleep(Duration::from_millis(4200).saturating_sub(t0.elapsed()));
-    writeln!(out, "{}", json!({"e": "tick", "to": 104})).unwrap();
-    let g = getcmd(&key, 23);
-    let fr = frame_of(&g, 0);
-    let rs = one(&mut c, &fr);
-    writeln!(out, "{}", finish_event(cmd_event(&g, 0, &fr), rs)).unwrap();
+    // (wait until, model clock at most / at least, opaque)
+    for (wait_ms, clock, opq) in [(1000u64, 102u64, 22u32), (4000, 105, 23), (7500, 107, 24)] {
+        std::thread::sleep(Duration::from_millis(wait_ms).saturating_sub(t0.elapsed()));
+        writeln!(out, "{}", json!({"e": "tick", "to": clock})).unwrap();
+        let g = getcmd(&key, opq);
+        let fr = frame_of(&g, 0);
+        let rs = one(&mut c, &fr);
+        writeln!(out, "{}", finish_event(cmd_event(&g, 0, &fr), rs)).unwrap();
+    }
     let _ = c.s.shutdown(Shutdown::Both);
-    7
+    9
 }
 
 /// Item-limit probe as a WireTcpTrace stream: a body of exactly the limit is stored, one byte more is refused.
